@@ -197,6 +197,15 @@ def handle (model : String) : List String → String
     else s!"OK tags=script,read-timeout,{kind}"
   | ["script", "read-timeout", kind, failed, conns] =>
     s!"DIFF harness: read-timeout scenario for {kind}: {failed} {conns}"
+  | ["script", "midframe", fed, armed0, armedMid, clearedMid, results, cls] =>
+    -- C18: a response that stops arriving in the middle leaves its request outstanding: the read
+    -- deadline stays armed (the `read` action of the model consumes a whole frame; `clear` follows it)
+    if armed0 ≠ "armedbefore=true" then s!"DIFF harness: midframe scenario {fed} {armed0}"
+    else if armedMid ≠ "armedmid=true" || clearedMid ≠ "clearedmid=false" then
+      s!"SPEC key=deadline-cleared-mid-response {armedMid} {clearedMid} (the only outstanding request is not answered yet)"
+    else if fed ≠ "fed=true" then s!"DIFF harness: midframe scenario {fed}"
+    else if results ≠ "results=1" || cls ≠ "class=none+connErr" then s!"SPEC key=midframe-silence-not-failed-over {results} {cls}"
+    else "OK tags=script,midframe"
   | ["script", "deadline", answered, ares, armed, moved, late] =>
     -- C18: a silent server is detected within the read timeout of the last request *sent*
     let lateMs := ((String.ofList (late.toList.drop 8)).toInt?).getD 0
